@@ -57,6 +57,9 @@ CHECKS = {
  "C14": ("exploration", "sched", "schedule-exploring PBT with a real-time linearizability oracle over complete histories (reads included), unbuffered and buffered",
          "Generated reader/writer programs executed under the deterministic scheduler; the full history including reads must be linearizable w.r.t. real-time order against the plain model. Known finding K3 (unsynchronised reads on a shared object tree) is excluded by construction while it reproduces: each reading thread then gets its own object, and shared-memory-buffered programs run unbuffered.",
          "as C09; K3 exclusion narrows the explored domain as stated", "3 C14"),
+ "C08": ("fault_enumeration", "crash", "crash-point enumeration: Hypothesis-generated save/flush scenarios, every executed line, file-system call and write prefix crashed in a forked child (os._exit), oracle = each file byte-identical to its old or its new content and openable",
+         "For each generated scenario (class, write configuration, content, single operation or multi-file buffer flush) the un-crashed run is measured and then every crash point is executed in its own forked child that dies without cleanup; every target file must be byte-for-byte its previous or its complete new content and open normally. 'exhaustive': true per scenario for lines and file-system calls; write prefixes exhaustive up to 64 bytes, 24 spread prefixes beyond. Second part: unserializable-but-validated content in all four write configurations (complete product).",
+         "process death (not power loss); kernel rename atomicity and tmpfs trusted; os._exit stands for SIGKILL", "2.7 / 3 C08"),
 }
 
 def main():
@@ -97,6 +100,7 @@ def main():
             {"name": "famworld+attr", "path": "vf/props/c18.py", "serves_properties": ["C18"], "kind_free_text": "family-closure world and attribute/item differential programs"},
             {"name": "zygote", "path": "vf/props/c19.py", "serves_properties": ["C19"], "kind_free_text": "fork-per-case fresh-process oracle"},
             {"name": "sched", "path": "vf/sched.py", "serves_properties": ["C09", "C10", "C13", "C14"], "kind_free_text": "deterministic cooperative scheduler (locks replaced, sys.settrace yield points), fork isolation, fault injection; oracle helpers in vf/conc.py"},
+            {"name": "crash", "path": "vf/crash.py", "serves_properties": ["C08"], "kind_free_text": "fork + os._exit crash injector (settrace lines, audit events, write proxy)"},
             {"name": "world", "path": "vf/world.py", "serves_properties": ["C01", "C02", "C03", "C04"], "kind_free_text": "interpreter of generated step lists against the library and a plain dict/list model (Hypothesis-driven), with replay and minimisation"},
         ],
         "checks": checks,
